@@ -281,7 +281,8 @@ theorem applyPostFilter_le (parent : Component) (fold : Fold) (f : IRFilter) (c 
   split
   · apply Le.bind' (applyFilter_le env hAB parent _ f _); intro r
     exact Le.refl _
-  · exact Le.refl _
+  · apply Le.bind' (applyFilter_le env hAB parent _ f _); intro r
+    exact Le.refl _
   · exact Le.refl _
 
 theorem applyPostFilters_le (parent : Component) (fold : Fold) (fs : List IRFilter) (c : Ctx) :
